@@ -19,6 +19,7 @@ package main
 import (
 	"fmt"
 	"go/types"
+	"os"
 	"strings"
 
 	"golang.org/x/tools/go/ssa"
@@ -219,10 +220,22 @@ func (b *shapeBuilder) build(s *shape) AV {
 		// statements without control flow of their own (a declaration, a send, i++, an assignment, go f(), a
 		// native range loop): never terminating, never a break — but the checker must have an answer for them
 		kind := strings.TrimPrefix(s.K, "simple:")
-		f := map[string]AV{}
-		if kind == "RangeStmt" {
+		id := func(n string) AV { return b.node("Ident", map[string]AV{"Name": mkString(n)}) }
+		f := map[string]AV{} // well-formed nodes: the children the parser always provides are there
+		switch kind {
+		case "RangeStmt":
 			f["Body"] = b.blockPtr(&shape{K: "block", Kids: []*shape{{K: "expr"}}})
-			f["Key"], f["Value"], f["X"] = Nil{}, Nil{}, b.node("Ident", map[string]AV{"Name": mkString("xs")})
+			f["Key"], f["Value"], f["X"] = Nil{}, Nil{}, id("xs")
+		case "DeclStmt":
+			f["Decl"] = b.node("GenDecl", map[string]AV{"Tok": r.tokConst("VAR"), "Specs": SliceV{}})
+		case "SendStmt":
+			f["Chan"], f["Value"] = id("ch"), id("v")
+		case "IncDecStmt":
+			f["X"], f["Tok"] = id("i"), r.tokConst("INC")
+		case "AssignStmt":
+			f["Lhs"], f["Rhs"], f["Tok"] = SliceV{Elems: []AV{id("a")}}, SliceV{Elems: []AV{id("b")}}, r.tokConst("ASSIGN")
+		case "GoStmt":
+			f["Call"] = b.node("CallExpr", map[string]AV{"Fun": id("f")}).(Dyn).V
 		}
 		return b.node(kind, f)
 	}
@@ -376,7 +389,7 @@ func (r *rwRT) ruleTerm() {
 			undecided("mkTerminationChecker is not a single straight-line construction")
 		}
 		chk := co[0].Ret[0]
-		in := r.interp(rwConfig{root: fn, inlineAll: true})
+		in := r.interp(rwConfig{root: fn, inlineAll: true, astWalk: true})
 		in.MaxDepth = 40
 		in.MaxRecur = 12
 		in.MaxVisits = 8
@@ -407,6 +420,9 @@ func (r *rwRT) ruleTerm() {
 		if !known {
 			c.und("RW.TERM", "shape "+sh.String(), pos, "result is not a constant: "+o.Ret[0].String())
 			continue
+		}
+		if got && !want && os.Getenv("VERIF_DEBUG_TERM") != "" && sh.String() == "for {break}" {
+			fmt.Fprintf(os.Stderr, "TERM %s: %s\n", sh, pathSummary(o))
 		}
 		if got && !want {
 			over++
